@@ -189,15 +189,16 @@ def main(chk, replay=None):
     for tr in traces:
         for n, what, c_ in tr["extra"]["fired"]:
             fired[what] = fired.get(what, 0) + 1
-    if not replay:
+    # 4. TLC judges every trace
+    tv = dl.validate_parallel("TraceC12", "TraceC12.cfg",
+                             [{"id": tr["id"], "init": tr["init"], "events": tr["events"]} for tr in traces], extra_files=extra)
+    # the vacuity guards only gate a PASS: a run that a property clause rejects is a verdict, not a machinery failure
+    if not replay and not tv["rejected"]:
         if enums == 0:
             raise core.MachineryError("C12: the substituted os.listdir was never exercised")
         missing = [w for w in demanded if not fired.get(w)]
         if missing:
             raise core.MachineryError("C12: demanded faults never fired: %s" % missing)
-    # 4. TLC judges every trace
-    tv = dl.validate_parallel("TraceC12", "TraceC12.cfg",
-                             [{"id": tr["id"], "init": tr["init"], "events": tr["events"]} for tr in traces], extra_files=extra)
     for rj in tv["rejected"]:
         tr = traces[rj["index"]]
         ex = tr["extra"]
